@@ -184,6 +184,15 @@ def discharge(S, ob, leaf_types=None, invariants=None):
         nd, ns = byte_len(S, d), byte_len(S, s)
         if nd is not None and nd == ns:
             return True, "both sides have static length %d" % nd, set()
+        if nd is not None and ns is None:
+            # the guards may have established the source length (`if v.len() != 32 { return Err(..) }`)
+            def core(t):
+                while t[0] in ("copied", "refv", "deref", "box"):
+                    t = t[1]
+                return t
+            for atom, pol in bdd.necessary_literals(pc):
+                if pol and atom[0] == "len_is" and atom[2] == nd and core(atom[1]) == core(s):
+                    return True, "source length %d established by a guard on every path" % nd, set()
         return False, "copy_from_slice length mismatch not excluded (%s vs %s)" % (nd, ns), set()
     return False, "unsupported obligation kind %s" % kind, set()
 
